@@ -145,6 +145,9 @@ func iniValText(r *Rng, o *OptSpec) string {
 		return genPlainText(r, mapKeyKind(k)) + ":" + genPlainText(r, elemKind(k))
 	}
 	if o.Base != 0 {
+		if bk := baseKind(k); bk == "int8" || bk == "uint8" {
+			return r.Pick([]string{"0", "1", "10", "11"}) // (101 in base 16 or 36 is more than eight bits hold)
+		}
 		return r.Pick([]string{"0", "1", "10", "11", "101"})
 	}
 	return genPlainText(r, k)
